@@ -606,7 +606,7 @@ func c09HtmlXnetSafe(doc []byte) bool {
 // ---------- known findings of this slice and of C03 that explain a token-stream difference ----------
 
 // `</script` etc. followed by something that is neither a letter nor whitespace, `/`, `>`: the minifier's lexer ends the raw text there, the standard does not
-var c09HtmlEndNoDelim = regexp.MustCompile("(?i)</(script|style|textarea|title|iframe|xmp)[^a-zA-Z \\t\\n\\f\\r/>]")
+var c09HtmlEndNoDelim = regexp.MustCompile("(?is)</(script|style|textarea|title|iframe|xmp)[^a-zA-Z \\t\\n\\f\\r/>]|<!--.*<script[^a-zA-Z \\t\\n\\f\\r/>]")
 // an end tag with a quoted attribute before its first `>` (the lexer ends the tag at the first `>`, the standard after the quote)
 var c09HtmlEndQuoted = regexp.MustCompile("</[a-zA-Z][^>]*[\"']")
 
@@ -1438,7 +1438,7 @@ func c09HtmlStages(c *Ctx) error {
 
 	// (4) the theorem's guard on real token streams
 	{
-		st := c.R.StartStage("c09-html-model", "documents (generated elements and composed documents <= 20 KB, tests/html/corpus, html_test.go inputs) lexed by the REAL lexer/TokenBuffer (c03Lex), random Keep* masks, no sub-minifier: model.c09.html.walk = model output + the decidable guard of html_output_retokenises_partial + whether the standard's tokenizer reads the output as the intended pieces; the model output must equal the real html.Minify output (C03 owns that comparison: counted, not reported here) and guard ⇒ re-tokenisation must hold (a counter-instance would contradict the theorem: diff); distribution = which kind of step first leaves the guard; non-trivial = the guard holds")
+		st := c.R.StartStage("c09-html-model", "documents (generated elements and composed documents <= 20 KB, tests/html/corpus, html_test.go inputs) lexed by the REAL lexer/TokenBuffer (c03Lex), random Keep* masks, no sub-minifier or (35 %) the recording stub minifiers of C03 for every media type (their results pass through html.go's re-lex check): model.c09.html.walk = model output + the decidable guard of html_output_retokenises_partial + whether the standard's tokenizer reads the output as the intended pieces; the model output must equal the real html.Minify output (C03 owns that comparison: counted, not reported here) and guard ⇒ re-tokenisation must hold (a counter-instance would contradict the theorem: diff); distribution = which kind of step first leaves the guard; non-trivial = the guard holds")
 		type mc struct {
 			doc  []byte
 			mask int
@@ -1473,12 +1473,17 @@ func c09HtmlStages(c *Ctx) error {
 			}
 			mask := c09HtmlMask(r)
 			o := c03OptsOf(mask)
-			out, err, crash := c03RunReal(d, o, false)
+			stub := r.Chance(35) // recording stubs for every media type: their results go through html.go's re-lex check
+			out, err, crash := c03RunReal(d, o, stub)
 			if err != nil || crash != "" {
 				continue
 			}
+			sm := 0
+			if stub {
+				sm = 1
+			}
 			cases = append(cases, mc{d, mask, out})
-			lines = append(lines, "model.c09.html.walk "+h.Int(int64(mask))+" "+h.Int(0)+" "+c03Ext(toks, o, false)+" "+c03EncodeToks(toks))
+			lines = append(lines, "model.c09.html.walk "+h.Int(int64(mask))+" "+h.Int(int64(sm))+" "+c03Ext(toks, o, stub)+" "+c03EncodeToks(toks))
 		}
 		rep, err := h.Eval(lines)
 		if err != nil {
